@@ -52,11 +52,17 @@ func ToDateTime64(t time.Time, p Precision) DateTime64 {
 	if t.IsZero() {
 		return 0
 	}
-	return DateTime64(t.UnixNano() / p.Scale())
+	// Not using t.UnixNano(): it overflows outside of years 1678..2262,
+	// while DateTime64 with precision below 9 covers 1900..2299.
+	scale := p.Scale()
+	return DateTime64(t.Unix()*(1e9/scale) + int64(t.Nanosecond())/scale)
 }
 
 // Time returns DateTime64 as time.Time.
 func (d DateTime64) Time(p Precision) time.Time {
-	nsec := int64(d) * p.Scale()
-	return time.Unix(nsec/1e9, nsec%1e9)
+	// Splitting into seconds and ticks first: int64(d) * p.Scale() overflows
+	// for instants that do not fit into int64 nanoseconds.
+	scale := p.Scale()
+	perSec := 1e9 / scale
+	return time.Unix(int64(d)/perSec, int64(d)%perSec*scale)
 }
